@@ -824,6 +824,60 @@ def million_constant(rng, tier, names, prefix):
                                 % (d_sexpr(cs.desc), L, c, g if g is not None else b.kind, exact, scale_), [cs], desc=d_sexpr(cs.desc)))
     return cases, viols
 
+def huge_window_long(rng, tier, prefix):
+    """f64: a window beyond 2^16 fed 3 x 2^16 .. 4 x 2^16 values (walk generated inside the executor, regenerated here), answers at the last
+    positions against the definition evaluated at binary64 over the last N values.  Two stream lengths 2^16 apart."""
+    import statistics
+    cases = []
+    for name in ("Sma", "Cumulative", "Min", "Max", "WelfordMean", "Welford", "Roc", "Hln"):
+        n = 65537 + rng.below(9000)
+        seed = rng.below(2 ** 40) + 1
+        base = 2 ** 17 + n + rng.below(2 ** 15)
+        for extra in (0, 2 ** 16):
+            Lm = base + extra
+            tail = [F(c, 10) for c in lcg_walk(6, rng.below(2 ** 40) + 1)]
+            cases.append(Case((name, n, E), [("W", 0, seed, Lm)] + [("v", 0, x) for x in tail], {"view": name, "regime": "huge-window-long", "model": False, "mode": "f64", "Lm": Lm, "seed": seed}))
+    run_impl(cases, mode="f64", profile="release")
+    viols = []
+    walks = {}
+    for c in cases:
+        name, n = c.desc[0], c.desc[1]
+        key = (c.meta["seed"], c.meta["Lm"])
+        if key not in walks:
+            walks[key] = [v / 10.0 for v in lcg_walk(c.meta["Lm"], c.meta["seed"])]
+        xs = walks[key] + [float(x) for x in c.inputs()]
+        for j in range(1, 7):
+            hist = xs[:len(xs) - 6 + j]
+            w = hist[-n:]
+            if name == "Sma":
+                e = math.fsum(w) / n
+            elif name == "Cumulative":
+                e = math.fsum(w)
+            elif name == "Min":
+                e = min(w)
+            elif name == "Max":
+                e = max(w)
+            elif name == "WelfordMean":
+                e = math.fsum(w) / n
+            elif name == "Welford":
+                m_ = math.fsum(w) / n
+                e = math.sqrt(math.fsum((v - m_) ** 2 for v in w) / (n - 1))
+            elif name == "Roc":
+                b_ = hist[-n - 1]
+                e = 100.0 * (hist[-1] - b_) / b_
+            else:
+                lo, hi = min(w), max(w)
+                e = 0.0 if hi == lo else 2.0 * (hist[-1] - lo) / (hi - lo) - 1.0
+            b = c.obs[j]
+            g = O.f64_of_bits(b.val) if b.kind == "S" else None
+            sc = max(1.0, abs(e)) if name not in ("Sma", "Min", "Max", "WelfordMean", "Welford") else 400.0
+            if g is None or not math.isfinite(g) or abs(g - e) > 1e-6 * sc:
+                viols.append(O.viol(prefix + "-hugewindow-" + name.lower(), "%s after %d updates reports %s (f64), the definition over the last %d values gives %s"
+                                    % (d_sexpr(c.desc), len(hist), g if g is not None else b.kind, n, e), [], desc=d_sexpr(c.desc),
+                                    stream={"generator": "W-walk (tenth units)", "seed": c.meta["seed"], "length": c.meta["Lm"], "then": [str(x) for x in c.inputs()]}))
+                break
+    return cases, viols
+
 # ---------------------------------------------------------------------------------- C02
 C02_VIEWS = ["Sma", "Cumulative", "Min", "Max", "Welford", "WelfordMean", "WelfordVar", "Hln", "Roc", "Entropy", "Vst", "Vsct"]
 def run_C02(rng, tier):
@@ -1768,6 +1822,9 @@ def run_C16(rng, tier):
     groups += dg
     mc, mv = million_constant(rng, tier, C16_VIEWS + ["WRolling", "WRollingMean", "WelfordVar"], "c16")
     viols += mv
+    hw, hv = huge_window_long(rng, tier, "c16")
+    viols += hv
+    mc = mc + hw
     # f32, shorter streams
     f32 = []
     for name in ("Sma", "Cumulative", "Ema", "WelfordMean", "Rsi", "Min", "Max"):
